@@ -24,6 +24,12 @@ def _finish(pts, und_edges, rng, oneway_p, labels="int", kind="random", extra_ed
         lab = [base + 37 * i + rng.randint(0, 5) for i in range(n)]
     elif labels == "str":
         lab = ["N%d" % i for i in range(n)]
+    elif labels == "nested":
+        # names that contain each other and the separator used in display strings ("x", "x-x", "x-x-x", ...), in random
+        # order: any identification of a road by a joined string instead of its pair of labels shows
+        ch = rng.choice(["x", "1", "a-b"])
+        lab = ["-".join([ch] * (i + 1)) for i in range(n)]
+        rng.shuffle(lab)
     else:  # strrev: lexical order reversed w.r.t. creation order
         lab = ["n%03d" % (n - i) for i in range(n)]
     edges = []
